@@ -46,6 +46,15 @@ SYMBOLS = ['.', 'o', 'v', '^', '<', '>', 's', 'p', '*', 'h', 'H', '+', 'x',
            'D', 'd', '|', '_', '1', '2']
 
 
+# strings of text regions: the CRTF string is everything between the first
+# and the last quote character of the last field, so quote characters, commas
+# and spaces inside - also at either end - are the string's own ('[' and '='
+# are not generated: the line grammar splits on them and CRTF has no escape)
+TEXTS = ['a', 'hello world', '', "3'", '30"', "'quoted'", '"M 31" field',
+         "it's", 'a, b', 'hash # tag', ' lead', 'trail ', 'a]b', 'über',
+         'a\\b', "5' x 3'"]
+
+
 def crtf_meta():
     return st.fixed_dictionaries({}, optional={
         'label': st.sampled_from(['lab', 'my label', 'A-1', 'x y z']),
@@ -99,10 +108,13 @@ def region_strategy():
     def deco(rs):
         def mk(t):
             meta = dict(t[1])
-            if t[0]['cls'].startswith('Text'):
+            base = t[0]
+            if base['cls'].startswith('Text'):
                 meta.pop('label', None)     # the label of a text IS its text
-            return dict(t[0], meta=meta, visual=t[2])
-        return st.tuples(st.just(rs), crtf_meta(), crtf_visual(rs['cls'])).map(mk)
+                base = dict(base, text=t[3])
+            return dict(base, meta=meta, visual=t[2])
+        return st.tuples(st.just(rs), crtf_meta(), crtf_visual(rs['cls']),
+                         st.sampled_from(TEXTS)).map(mk)
     return st.one_of(pix, sky, sky).flatmap(deco)
 
 
@@ -320,6 +332,9 @@ class RoundTrip(Relation):
                       'the metadata', f'{dict(A.meta)} {dict(A.visual)} -> '
                       f'{dict(B.meta)} {dict(B.visual)}')
         text3 = P2.serialize(format='crtf', **opts)
+        from vf.ops import parsed_independent
+        parsed_independent(ctx, P2, lambda: Regions.parse(
+            text2, format='crtf'), 'parse')
         ctx.check(text3 == text2, 'fixed point | serialising again changes '
                   'the text')
         ctx.nontrivial(nt)
